@@ -223,7 +223,15 @@ CsrPathCases == { Case("csr-path", [Base EXCEPT !.isCa = ca, !.aki = aki, !.kid 
                     ca \in {NoCa, CaU}, aki \in Bool, ks \in {Kid("sha256"), Kid("sha512"), KidPre(<<1, 2, 3, 4>>)}, ki \in {Kid("sha256"), Kid("sha384"), KidPre(<<9, 9>>)},
                     nb \in {T0, TmOff(2024, 3, 1, 10, 20, 30, 500, 19800), TmOff(1950, 1, 1, 0, 30, 0, 0, 3600)},
                     na \in {T1, TmOff(2050, 1, 1, 3, 0, 0, 0, 18000), TmOff(2049, 12, 31, 22, 0, 0, 999, -10800)} }
-Cases == CsrPathCases \cup BadStringCases \cup PathLenKuCases \cup OutsideIssuerCases \cup LongKidCases \cup AutoSerialCases \cup PresenceCases \cup KuCases \cup PathLenCases \cup PrefixCases \cup SanCases \cup NcCases \cup DnCases
+(* a certificate under the issuer's own name but another key (key roll-over: "new with old"), AKI requested *)
+SameNameCases == { Case("same-name", [Base EXCEPT !.dn = IssuerDn, !.isCa = ca, !.aki = aki, !.kid = ks], FALSE, sa, "ed25519", ki, src) :
+                     ca \in {NoCa, CaU}, aki \in Bool, ks \in {Kid("sha256"), Kid("sha384")}, ki \in {Kid("sha256"), Kid("sha512"), KidPre(<<4, 4, 4>>)},
+                     sa \in {"ed25519", "ecdsa-p256-sha256"}, src \in {"keypair", "csr-path"} }
+(* key identifiers around the length where the extension value needs long-form lengths *)
+Kid200 == [i \in 1..200 |-> (i * 7) % 256]
+VeryLongKidCases == { Case("longkid", [Base EXCEPT !.isCa = CaU, !.aki = TRUE, !.kid = KidPre(SubSeq(Kid200, 1, n))], self, "ed25519", "ed25519", KidPre(SubSeq(Kid200, 1, m)), "keypair") :
+                        n \in {125, 126, 127, 128, 200}, m \in {125, 126, 127, 128, 129, 200}, self \in Bool }
+Cases == SameNameCases \cup VeryLongKidCases \cup CsrPathCases \cup BadStringCases \cup PathLenKuCases \cup OutsideIssuerCases \cup LongKidCases \cup AutoSerialCases \cup PresenceCases \cup KuCases \cup PathLenCases \cup PrefixCases \cup SanCases \cup NcCases \cup DnCases
          \cup KidCases \cup SerialCases \cup EkuCases \cup CustomCases \cup CustomAkiCases \cup IssuerKindCases \cup AlgCases
 
 (* ---- abstract keys for the model (the harness substitutes real keys and real digests) ---- *)
